@@ -13,6 +13,7 @@ Deadlock, hang, exception, or an iterator/query observing anything but the uncac
 is a concrete violation with a replayable schedule."""
 import itertools
 import json
+import re
 import os
 import sys
 import time
@@ -29,7 +30,7 @@ CID = "C11"
 AREA = "rcache"
 VO = ["props/C11.vo", "rcache/PyList.vo", "rcache/RCacheModel.vo", "rcache/RCacheSpec.vo",
       "rcache/RCacheThm.vo", "rcache/RQueryModel.vo", "rcache/RQuerySpec.vo", "rcache/RQueryThm.vo",
-      "base/Cal.vo", "rr/RRBase.vo", "rr/RRNorm.vo", "rcache/RReplace.vo"]
+      "base/Cal.vo", "rr/RRBase.vo", "rr/RRNorm.vo", "rcache/RReplace.vo", "rcache/RGenBase.vo", "gen/RQueryGen.vo", "gen/RCacheGen.vo", "rcache/RCacheGenThm.vo"]
 
 
 def listing(recipe):
@@ -600,6 +601,17 @@ def replay(path):
     return 0
 
 
+def translator_status(build_log):
+    """harness/gen_rcache.py (run by common.regenerate on every check) regenerates coq/gen/RQueryGen.v and
+    coq/gen/RCacheGen.v from /repo's source; when it aborts the files are poisoned and the C11_gen_* /
+    C12_gen_* obligations (and with them the whole props file) stop compiling"""
+    m = re.search(r"TRANSLATE-ERROR: ([^\n]*)", build_log or "")
+    failed = "GENERATOR FAILED: gen_rcache.py" in (build_log or "") or (
+        m is not None and "gen_rcache" in (build_log or ""))
+    return {"script": "harness/gen_rcache.py", "outputs": ["coq/gen/RQueryGen.v", "coq/gen/RCacheGen.v"],
+            "status": "aborted" if failed else "ok", "message": m.group(1) if (m and failed) else None}
+
+
 def main():
     argv = sys.argv[1:]
     if "--replay" in argv:
@@ -608,10 +620,12 @@ def main():
     t0 = time.time()
     verdict = C.Verdict(CID, {"raising_generator": matcher_raising_generator})
     build_err = None
+    build_log = ""
     try:
-        C.ensure_built([AREA], VO)
+        _ok, build_log = C.ensure_built([AREA], VO)
     except C.BuildError as ex:
         build_err = ex
+    translator = translator_status(build_log)
     if build_err is not None:
         props = {"obligations": 1, "discharged": 0, "theorems": [], "assumptions": {},
                  "cmd": "coqc props/C11.v", "log": build_err.log, "ok": False}
@@ -663,7 +677,10 @@ def main():
                            "log_tail": (build_err.log if build_err else "")[-2000:]}, concrete=False)
 
     if not props["ok"] and not any(c for (_p, c) in verdict.violations):
-        verdict.violation({"kind": "broken proof obligation", "theorem_file": "coq/props/C11.v",
+        verdict.violation({"kind": ("translator abort (harness/gen_rcache.py: %s): the regenerated model no longer "
+                                    "exists, gen obligations broken" % translator["message"])
+                           if translator["status"] == "aborted" else "broken proof obligation",
+                           "translator": translator, "theorem_file": "coq/props/C11.v",
                            "theorems": props["theorems"], "discharged": props["discharged"],
                            "input": None, "log_tail": props["log"][-3000:]}, concrete=False)
     rc = verdict.finish()
@@ -709,6 +726,10 @@ def main():
                               "_invalidate_cache (rruleset mutators) racing with live iterators",
                               "rules whose generator raises (ValueError of impossible sub-daily rules)"],
         "known_findings_hit": verdict.known_hits,
+        "translator": translator,
+        "model_tie": "query methods / _iter_cached table / _invalidate_cache / __init__ regenerated from /repo's AST "
+                     "by harness/gen_rcache.py on this run and proved equal to the hand-written model (C1x_gen_* "
+                     "theorems); plus the differential correspondence below",
     }
     C.write_evidence(CID, tier, t0, props, cov,
                      ["_thread lock: mutual exclusion, acquire blocks while held (the instrumented lock of "
